@@ -501,8 +501,8 @@ func SeqLen(s *Term) *Term {
 	return bi("seqlen", SInt, s)
 }
 
-func MkEvent(kind, obj *Term, str *Term, i *Term, obj2 *Term) *Term {
-	return bi("mkev", SEvent, kind, obj, str, i, obj2)
+func MkEvent(kind, obj *Term, str *Term, i *Term, obj2 *Term, seq *Term) *Term {
+	return bi("mkev", SEvent, kind, obj, str, i, obj2, seq)
 }
 func evAcc(name string, s Sort, e *Term, i int) *Term {
 	if e.Op == "mkev" && !e.IsSym {
@@ -515,6 +515,7 @@ func EvObj(e *Term) *Term  { return evAcc("eobj", SInt, e, 1) }
 func EvStr(e *Term) *Term  { return evAcc("estr", SStr, e, 2) }
 func EvInt(e *Term) *Term  { return evAcc("eint", SInt, e, 3) }
 func EvObj2(e *Term) *Term { return evAcc("eobj2", SInt, e, 4) }
+func EvSeq(e *Term) *Term  { return evAcc("eseq", SInt, e, 5) }
 
 // ---------------------------------------------------------------------------
 // traversal / substitution
@@ -647,6 +648,8 @@ func rebuild(t *Term, args []*Term) *Term {
 		return EvInt(args[0])
 	case "eobj2":
 		return EvObj2(args[0])
+	case "eseq":
+		return EvSeq(args[0])
 	}
 	nt := *t
 	nt.Args = args
@@ -751,7 +754,7 @@ func (d *Decls) EmitFor(sb *strings.Builder, terms []*Term) {
 const Preamble = `(declare-datatypes ((Str 0)) (((mkstr (sarr (Array Int Int)) (soff Int) (slen Int)))))
 (declare-datatypes ((Slice 0)) (((mkslice (slbase Int) (sloff Int) (sllen Int) (slcap Int)))))
 (declare-datatypes ((ISeq 0)) (((mkseq (seqarr (Array Int Int)) (seqlen Int)))))
-(declare-datatypes ((Event 0)) (((mkev (ekind Int) (eobj Int) (estr Str) (eint Int) (eobj2 Int)))))
+(declare-datatypes ((Event 0)) (((mkev (ekind Int) (eobj Int) (estr Str) (eint Int) (eobj2 Int) (eseq Int)))))
 (define-fun streq ((a Str) (b Str)) Bool (and (= (slen a) (slen b)) (forall ((i!q Int)) (=> (and (<= 0 i!q) (< i!q (slen a))) (= (select (sarr a) (+ (soff a) i!q)) (select (sarr b) (+ (soff b) i!q)))))))
 (declare-fun sid (Str) Int)
 `
